@@ -476,6 +476,7 @@ func c05NestedLoop() {
 	vassert(wantErr == nil, "uninterrupted run succeeds")
 	var out map[string]any
 	finished := false
+	reportedX := 0
 	for call := 0; call < 12 && !finished; call++ {
 		setsBefore := store.sets
 		var rerr error
@@ -499,6 +500,9 @@ func c05NestedLoop() {
 			a6(si != nil && (len(si.BeforeNodes)+len(si.AfterNodes) > 0), "nested: the interrupt carries the nested graph's interrupt info ("+desc+")")
 			if si != nil && innerInt == 1 {
 				a6(c05Contains(si.BeforeNodes, "x"), "nested: inner interrupt-before node is reported in the nested info")
+				if c05Contains(si.BeforeNodes, "x") {
+					reportedX++
+				}
 			}
 			if si != nil && innerInt == 2 {
 				a6(c05Contains(si.AfterNodes, "p"), "nested: inner interrupt-after node is reported in the nested info")
@@ -506,6 +510,9 @@ func c05NestedLoop() {
 		}
 	}
 	a5(finished, "nested: the run completes after resuming ("+desc+")")
+	if innerInt == 1 {
+		a6(len(logI.of("x")) <= reportedX, "nested: every execution of the inner interrupt-before node was preceded by an interrupt that reported it, also in later rounds of the enclosing loop ("+desc+")")
+	}
 	a5(vMapEq(out, wantOut), "nested: interrupted and resumed run returns the output of the uninterrupted run ("+desc+")")
 	a5(visitsSeen[true] == visitsSeen[false], "nested: the pre-handler of the nested graph node ran as often as in the uninterrupted run; state carried unchanged across interrupt and resume ("+desc+")")
 	for _, n := range []string{"pre", "p", "x"} {
